@@ -82,7 +82,7 @@ def proof_status(pid, files=None):
     theorems, problems = {}, []
     for f in files:
         src = open(os.path.join(COQ, "Props", f)).read()
-        names = re.findall(r"^\s*(?:Theorem|Lemma|Corollary)\s+(\w+)", src, flags=re.M)
+        names = re.findall(r"^\s*(?:Theorem)\s+(\w+)", src, flags=re.M)
         # the output of Print Assumptions is cached next to the file and reused while nothing it depends on changed
         cache = os.path.join(COQ, "Props", f[:-2] + ".out")
         newest = max(os.path.getmtime(os.path.join(dp, g)) for dp, _, gs in os.walk(COQ) for g in gs
